@@ -82,8 +82,10 @@ _NEED = {
     ],
     "gamma.rs": [
         "let (alpha, boost) = if self.alpha < 1. {",
-        "self.alpha + 1.,",
-        "self.uniform_gen.sample().powf(1. / self.alpha),",
+        "let mut u = self.uniform_gen.sample();",
+        "while u == 0. {",
+        "u = self.uniform_gen.sample();",
+        "(self.alpha + 1., u.powf(1. / self.alpha))",
         "(self.alpha, 1.)",
         "let d = alpha - 1. / 3.;",
         "let x = self.normal_gen.sample();",
@@ -1147,9 +1149,7 @@ def check_support(dist, ps, xs):
 
 
 def support_key(dist, ps, rg, msg):
-    """stable key of a support failure; Student t with dof < 2 dividing by a gamma variate that is exactly 0 gets its own key"""
-    if dist == "t" and ps[0] < 2.0 and "inf" in msg:
-        return "t:support:inf:dof<2" + rg[rg.index(":"):] if ":" in rg else "t:support:inf:dof<2"
+    """stable key of a support failure"""
     return "%s:support:%s" % (dist, rg)
 
 
@@ -1439,9 +1439,9 @@ def EXTRACT(repo):
 
 # --- deep theorems (C03Support)
 PROOF_MODULES = PROOF_MODULES + ['Compute.Props.C03Support']
-REQUIRED_THEOREMS = REQUIRED_THEOREMS + ['Cv.C03Support.ptrs_support', 'Cv.C03Support.poisson_sample_support', 'Cv.C03Support.ptrs_small_lambda_returns_negative', 'Cv.C03Support.btpe_support', 'Cv.C03Support.binomial_sample_support', 'Cv.C03Support.binomial_flip_total', 'Cv.C03Support.chi_squared_pos', 'Cv.C03Support.chi_squared_zero', 'Cv.C03Support.t_support', 'Cv.C03Support.beta_support', 'Cv.C03Support.zig_strip_nonneg', 'Cv.C03Support.zig_wedge_tail_nonneg', 'Cv.C03Support.zig_out']
+REQUIRED_THEOREMS = REQUIRED_THEOREMS + ['Cv.C03Support.ptrs_support', 'Cv.C03Support.poisson_sample_support', 'Cv.C03Support.ptrs_small_lambda_returns_negative', 'Cv.C03Support.btpe_support', 'Cv.C03Support.binomial_sample_support', 'Cv.C03Support.binomial_flip_total', 'Cv.C03Support.chi_squared_pos', 'Cv.C03Support.t_support', 'Cv.C03Support.beta_support', 'Cv.C03Support.zig_strip_nonneg', 'Cv.C03Support.zig_wedge_tail_nonneg', 'Cv.C03Support.zig_out']
 NOT_PROVED = [x for x in NOT_PROVED if not any(k in str(x) for k in ('support of PTRS', 'Support of PTRS'))]
-NOT_PROVED = NOT_PROVED + ['support of the rejection samplers IS proved (Props/C03Support): Poisson draws are naturals for every rate, Binomial draws are naturals <= n for every n and p in [0,1] (BTPE candidates lie in [0,n] by the set-up arithmetic; the flip never underflows), Beta in [0,1]; Ziggurat support is proved per accepting branch, not through the Normal.sample loop (unfolding that definition does not terminate in Lean); chi-squared(1) / t(dof < 2) strict positivity needs the boosting uniform to be non-zero (probability 2^-53 per draw: the draw is then exactly 0)']
+NOT_PROVED = NOT_PROVED + ['support of the rejection samplers IS proved (Props/C03Support): Poisson draws are naturals for every rate, Binomial draws are naturals <= n for every n and p in [0,1] (BTPE candidates lie in [0,n] by the set-up arithmetic; the flip never underflows), Beta in [0,1]; Ziggurat support is proved per accepting branch, not through the Normal.sample loop (unfolding that definition does not terminate in Lean); chi-squared / t strict positivity of the gamma variate holds for every returning call since repair F54']
 
 # --- source tie (translator pass 4: sample() of the inverse-CDF samplers regenerated from /repo/src into Generated/SrcC03.lean,
 # proved equal to the hand model in Props/SrcTieC03.lean)
